@@ -157,6 +157,9 @@ func c17Mutate(stream []byte, muts []c17Mut) []byte {
 
 var c17Tracker *pooltrack.Tracker
 
+// c17Sequential: the cases of this process run one after the other (TestC17, not the parallel lanes of C19)
+var c17Sequential bool
+
 func c17Run(c c17Case) Outcome {
 	resps := map[string]peer.Resp{}
 	gated := 0
@@ -182,6 +185,9 @@ func c17Run(c c17Case) Outcome {
 	defer h.Close()
 	if c17Tracker != nil {
 		c17Tracker.Take()
+		if c17Sequential {
+			c17Tracker.Forget()
+		}
 	}
 	stream := c17Mutate(c17Recording(c), c.Muts)
 	if c.Soup != "" {
@@ -235,10 +241,30 @@ func c17Run(c c17Case) Outcome {
 		_ = h.C.Close()
 	}
 	returned := h.WaitServeDone(6 * time.Second)
-	for try := 0; !returned && try < 12 && peer.AnyLive(h.ConnGoroutines()); try++ {
-		// a goroutine of the connection is running or waiting for the CPU: slow, not stuck (seen with the
-		// thorough tier niced on a loaded machine). Up to 30 s in all; a stuck connection has none.
+	// Not returned after 6 s: stuck, or slow (race build, hundreds of handlers, a loaded machine)? A stuck
+	// connection does not change: two looks two seconds apart show the same goroutines in the same states at the
+	// same places and the same hook counters. While anything moves, keep waiting (up to a minute in all).
+	look := func() string {
+		out := ""
+		for i := range h.Stats.Ev {
+			out += fmt.Sprint(h.Stats.Ev[i].Load(), ",")
+		}
+		for _, g := range h.ConnGoroutines() {
+			out += firstLines(g, 3) + "|"
+		}
+		return out
+	}
+	stalled := false
+	for try := 0; !returned && try < 27; try++ {
+		a := look()
 		returned = h.WaitServeDone(2 * time.Second)
+		if !returned && look() == a && !peer.AnyLive(h.ConnGoroutines()) {
+			stalled = true
+			break
+		}
+	}
+	if !returned && !stalled {
+		return Outcome{Inconcl: "ServeConn had not returned after a minute but the connection was still changing (machine too slow)"}
 	}
 	desc := fmt.Sprintf("stream of %d octets cut at %d, %d mutations", len(stream), n, len(c.Muts))
 	if !returned {
@@ -314,7 +340,8 @@ func c17Run(c c17Case) Outcome {
 	// nothing of the connection may be at work any more: its hook counters (frames queued, dropped, written, loop
 	// iterations) must stand still. A timer that was re-armed on the way out keeps firing and shows here (each
 	// firing is a goroutine of the dead connection, too short-lived for the dump above).
-	{
+	if cfg17.PingInterval > 0 {
+		// (only the server's own timers can be at work on a dead connection, and only this mode arms one)
 		var a, b [17]int64
 		for i := range a {
 			a[i] = h.Stats.Ev[i].Load()
@@ -465,7 +492,8 @@ func TestC17(t *testing.T) {
 		"a recorded well-formed client byte stream (1..4 requests, or 100..400 bodiless ones with parked handlers, with bodies up to 40000, split header blocks, padding, trailers, DATA chunking; built offline with the reference HPACK encoder), then: delivered up to a generated cut offset (any byte, incl. inside a frame header, a header block or a body) or entirely; 0..4 structure-aware mutations (frame duplicate / delete / swap / bit flip / lying length / type, flags or stream-id change / inserted RST_STREAM, WINDOW_UPDATE, SETTINGS, PING, GOAWAY, PRIORITY, CONTINUATION, DATA); optional frame soup appended; the peer never reading (bounded queue) or the server's writes failing from a generated octet on; the connection then ends with EOF or a reset; handlers of some requests parked and released before or after the disconnect; responses of 0..200000 octets buffered or streamed. Oracle: the server's logger never says 'panicked'/'panic in' (recovered panics count), the process survives, ServeConn returns within 6 s of the peer being gone, afterwards only handler goroutines the harness still holds remain and none after release (connection goroutines by the serverConn address in the dump, handler goroutines by dispatchHandler frames anywhere in the process), the pool observer sees no double release and no RequestCtx returned while its handler is inside. Non-trivial = cut inside a frame, or disconnect with a handler running; distinct by case hash.")
 	defer s.finish()
 	c17Tracker = pooltrack.Start(false)
-	defer func() { pooltrack.Stop(); c17Tracker = nil }()
+	c17Sequential = true
+	defer func() { pooltrack.Stop(); c17Tracker = nil; c17Sequential = false }()
 	runLane(s, Lane[c17Case]{Name: "outlive", Journal: true, Quick: 12000, Thor: 1200000, Gen: c17Gen, Run: c17Run})
 	runEnum(s, EnumLane[c17Case]{Name: "cuts", Journal: true, N: c17EnumOff[len(c17EnumOff)-1], At: c17EnumAt, Run: c17Run, QuickStride: 3, ThorStride: 1})
 }
